@@ -14,6 +14,10 @@
  *   len  <mode> <loc> <L>               lists [En(L)], [Ez(L)], [En(L),"",Ez(L)]   (En NUL-free, Ez with NULs)
  *   all256 <mode> <loc>                 entries holding all 256 byte values
  *   fold256 <mode> <loc>                256 entries  X"=v"  (X = every byte value) queried with every 1-byte tag
+ *   longtag <mode> <loc> <L>            tag T of L characters; pool: T=, T in other case=, T with only the last character's case changed=,
+ *                                       T with another last character=, T+"x"=, T minus its last character=, the 126- and 127-character
+ *                                       prefixes of T= (L>126 / L>127); every ordered choice of 3 distinct pool entries + the whole pool;
+ *                                       queried with T and each of those relatives (pool reduced for L>256)
  *   probe <loc>                         does setlocale(LC_ALL,loc) succeed?
  *
  * Call-sequence families (one "sequence" = one evaluation; counted in seqs/seqok, not in lists):
@@ -118,7 +122,8 @@ static void check_queries(vorbis_comment *vc,const ent *m,int n,const char *wher
   int t,k,i;
   if(n+2>g_matchcap){ g_matchcap=n+2+1024; g_match=(int*)realloc(g_match,sizeof(int)*g_matchcap); }
   for(t=0;t<g_ntags;t++){
-    const char *T=g_tags[t]; int tl=(int)strlen(T)+1,nm=0,amb=0,c,nonnull=0; unsigned char ft[40];
+    const char *T=g_tags[t]; int tl=(int)strlen(T)+1,nm=0,amb=0,c,nonnull=0; static unsigned char *ft; static int ftcap;
+    if(tl+1>ftcap){ ftcap=tl+64; ft=(unsigned char*)realloc(ft,ftcap); }
     memcpy(ft,T,tl-1); ft[tl-1]='=';
     for(k=0;k<n;k++){
       int a=(m[k].len>=tl)&&foldeq(m[k].p,ft,tl);
@@ -129,7 +134,7 @@ static void check_queries(vorbis_comment *vc,const ent *m,int n,const char *wher
     }
     if(amb){ S.amb++; continue; }   /* the two readings of an embedded-NUL tag part differ: not judged */
     c=vorbis_comment_query_count(vc,(char*)T);
-    if(c!=nm)fail("bad:query_count:%s:tag=%02x%02x:got%d!=%d",where,(unsigned char)T[0],T[0]?(unsigned char)T[1]:0,c,nm);
+    if(c!=nm)fail("bad:query_count:%s:tag=%02x%02x(len%d):got%d!=%d",where,(unsigned char)T[0],T[0]?(unsigned char)T[1]:0,tl-1,c,nm);
     for(i=0;i<=n+1;i++){
       char *r=vorbis_comment_query(vc,(char*)T,i);
       S.queries++;
@@ -139,17 +144,17 @@ static void check_queries(vorbis_comment *vc,const ent *m,int n,const char *wher
         if(r!=want){
           /* describe what came back: which entry (if any) does r point into? */
           int j,hit=-1; for(j=0;j<vc->comments;j++)if(r>=vc->user_comments[j]&&r<=vc->user_comments[j]+vc->comment_lengths[j]){ hit=j; break; }
-          fail("bad:query_wrong_entry:%s:tag=%02x%02x:i=%d:got_%s%d:want_entry%d",where,(unsigned char)T[0],T[0]?(unsigned char)T[1]:0,i,r?"entry":"NULL",hit,g_match[i]);
+          fail("bad:query_wrong_entry:%s:tag=%02x%02x(len%d):i=%d:got_%s%d:want_entry%d",where,(unsigned char)T[0],T[0]?(unsigned char)T[1]:0,tl-1,i,r?"entry":"NULL",hit,g_match[i]);
         }else{
           S.qnonnull++;
           if(memcmp(m[g_match[i]].p,ft,tl))S.qcase++;
           if(i>=1)S.qmulti++;
         }
       }else if(r){
-        fail("bad:query_beyond_matches_not_null:%s:tag=%02x%02x:i=%d:matches=%d",where,(unsigned char)T[0],T[0]?(unsigned char)T[1]:0,i,nm);
+        fail("bad:query_beyond_matches_not_null:%s:tag=%02x%02x(len%d):i=%d:matches=%d",where,(unsigned char)T[0],T[0]?(unsigned char)T[1]:0,tl-1,i,nm);
       }
     }
-    if(nonnull!=c)fail("bad:count_ne_successful_queries:%s:tag=%02x%02x:count%d:nonnull%d",where,(unsigned char)T[0],T[0]?(unsigned char)T[1]:0,c,nonnull);
+    if(nonnull!=c)fail("bad:count_ne_successful_queries:%s:tag=%02x%02x(len%d):count%d:nonnull%d",where,(unsigned char)T[0],T[0]?(unsigned char)T[1]:0,tl-1,c,nonnull);
   }
 }
 
@@ -587,6 +592,30 @@ int main(int argc,char **argv){
       b[0]='a'; b[1]='='; for(j=0;j<256;j++)b[2+j]=(unsigned char)j; m[0]=mk(b,258); check_list(m,1,mode); sig_list(&sig,m,1);
       for(j=0;j<255;j++)b[j]=(unsigned char)(j+1); m[0]=mk(b,255); check_list(m,1,mode); sig_list(&sig,m,1);   /* NUL-free: goes through vorbis_comment_add too */
       for(j=0;j<256;j++)b[j]=(unsigned char)(255-j); m[0]=mk(b,256); m[1]=mk(b,128); check_list(m,2,mode); sig_list(&sig,m,2); have_sig=1;
+    }else if(!strcmp(kind,"longtag")){
+      /* tag T of L characters; pool of entries around it; every ordered choice of 3 distinct pool entries; queried with T and its relatives */
+      int L=atoi(strtok_r(NULL," \n",&sv)),j,np=0,nt=0,a,b2,c2; char *T,*Tc,*Tl,*Tlc,*Tx,*P126=NULL,*P127=NULL,*Pm1; ent pool[10]; static const char *tags[12]; ent m[10];
+      if(L<1){ printf("%ld BADCASE\n",idx); fflush(stdout); setlocale(LC_ALL,"C"); continue; }
+      ar_reset(24L*(L+16)+4096);
+#define LT_NEW(len) ((char*)ar_alloc((len)))
+      T=LT_NEW(L); for(j=0;j<L;j++)T[j]=(j%5==4)?(char)('0'+j%10):(char)('a'+(j*7+3)%26); T[L-1]='k';
+      Tc=LT_NEW(L); for(j=0;j<L;j++)Tc[j]=(T[j]>='a'&&T[j]<='z')?T[j]-32:T[j];          /* differs only in case (every letter) */
+      Tlc=LT_NEW(L); memcpy(Tlc,T,L); Tlc[L-1]='K';                                        /* differs only in the case of the last character */
+      Tl=LT_NEW(L); memcpy(Tl,T,L); Tl[L-1]='m';                                           /* differs only in the last character */
+      Tx=LT_NEW(L+1); memcpy(Tx,T,L); Tx[L]='x';                                           /* one character longer */
+      Pm1=LT_NEW(L-1); memcpy(Pm1,T,L-1);                                                  /* one character shorter */
+      if(L>126){ P126=LT_NEW(126); memcpy(P126,T,126); }
+      if(L>127){ P127=LT_NEW(127); memcpy(P127,T,127); }
+#define LT_ENT(tag,tlen,val) do{ unsigned char *e=ar_alloc((tlen)+3); memcpy(e,tag,tlen); e[tlen]='='; e[(tlen)+1]='v'; e[(tlen)+2]=(unsigned char)(val); pool[np].p=e; pool[np].len=(tlen)+3; np++; }while(0)
+      LT_ENT(T,L,'0'); LT_ENT(Tc,L,'1'); if(P126)LT_ENT(P126,126,'2'); if(P127)LT_ENT(P127,127,'3'); LT_ENT(Tl,L,'4');
+      if(L<=256){ LT_ENT(Tlc,L,'5'); LT_ENT(Tx,L+1,'6'); LT_ENT(Pm1,L-1,'7'); }
+      tags[nt++]=T; tags[nt++]=Tc; tags[nt++]=Tl; tags[nt++]=Tx; tags[nt++]=Pm1; if(P126)tags[nt++]=P126; if(P127)tags[nt++]=P127;
+      g_tags=tags; g_ntags=nt;
+      for(a=0;a<np;a++)for(b2=0;b2<np;b2++)for(c2=0;c2<np;c2++){
+        if(a==b2||a==c2||b2==c2)continue;
+        m[0]=pool[a]; m[1]=pool[b2]; m[2]=pool[c2]; check_list(m,3,mode); sig_list(&sig,m,3);
+      }
+      check_list(pool,np,mode); sig_list(&sig,pool,np); have_sig=1;
     }else if(!strcmp(kind,"fold256")){
       static char tagbuf[256][2]; static const char *tags[300]; ent m[256]; int j,nt=0; unsigned char b[4];
       ar_reset(4096);
